@@ -510,6 +510,12 @@ def defect_case(rng, fid):
                 continue
             l = [-rng.randint(1, hi + 1), hi] + ([rng.randrange(d)] if rng.random() < 0.3 else [])          # the negative entry lies inside the GROWN extent
             rng.shuffle(l)
+            if len({z + hi + 1 if z < 0 else z for z in l}) < len(l):
+                # (lead, final integration) the entries must address DISTINCT positions of the grown mode: a list that repeats a position is the
+                # class of the repeated-index streams; on a receiver without entries pyttb stores the FIRST occurrence first, the model the last
+                # (stored order only, not pinned by the property and outside every theorem): a thorough-tier false alarm of this stream after
+                # C04-N17 was flipped to fixed (no attribution any more)
+                continue
             es = [["l", l] if j == k else rng.choice([["i", rng.randrange(dd)], ["s", None, None, None]]) for j, dd in enumerate(shape)]
             op = ["set", ["region", es], ["scalar", rng.choice([0, _val(rng), _val(rng)])]]
         elif fid == "C04-N16":
